@@ -167,6 +167,7 @@ fn dml_cfg(g: &GenCfg, t: &mut Tape, fks: bool) -> DmlCfg {
         key_updates: true,
         inline_fk: false,
         setnull_on_notnull: false,
+        two_fks_same_parent: false,
         replace: false,
         odku: false,
     }
